@@ -5,9 +5,10 @@ CONSTANTS
   MaxConn = 5
   MaxRefuse = 3
   MaxFeed = 2
-  MaxEof = 3
+  MaxEof = 2
   SlowSet = {}
   CfgWrite = TRUE
+  NCl = 1
 INVARIANT MonitorQuiet
 INVARIANT OneReceivePath
 INVARIANT LockDiscipline
